@@ -404,7 +404,7 @@ func (ir *ifdReader) ParseOffsetTime(t Tag) *time.Location {
 		if err != nil {
 			return time.UTC
 		}
-		if buf[3] == ':' {
+		if len(buf) >= 6 && buf[3] == ':' {
 			var offset int
 			offset += int(parseStrUint(buf[1:3])) * hoursToSeconds
 			offset += int(parseStrUint(buf[4:6])) * minutesToSeconds
